@@ -279,13 +279,14 @@ type cpuDim struct {
 func product(dims []cpuDim, base cpuCase, f func(c *cpuCase)) int64 {
 	idx := make([]int, len(dims))
 	var n int64
+	c := new(cpuCase) // one scratch case per product, reused (f must not retain the pointer)
 	for {
-		c := base
+		*c = base
 		for k, d := range dims {
-			d.set(&c, idx[k])
+			d.set(c, idx[k])
 		}
 		c.normalise()
-		f(&c)
+		f(c)
 		n++
 		k := len(dims) - 1
 		for k >= 0 {
